@@ -552,8 +552,27 @@ Theorem record12_fixpoint_bytes n b x e : bytes_ok b = true ->
 Proof. exact (record_fixpoint_bytes (w_hs 0) (hs_roundtrip 0) hs0_refix n b x e). Qed.
 
 Theorem record12_reencodes n b x : bytes_ok b = true -> record_unmarshal (w_hs 0) n b = Some x ->
-  is_hs (snd x) = false -> exists e, record_marshal (w_hs 0) x = Some e.
+  is_hs (snd x) = false ->
+  exists ce, content_enc (w_hs 0) (snd x) = Some ce /\
+             (len ce <= 65535 -> exists e, record_marshal (w_hs 0) x = Some e).
 Proof. exact (record_reencodes (w_hs 0) (hs_roundtrip 0) hs0_refix n b x). Qed.
+
+Theorem record12_marshal_declares_length h c e : record_marshal (w_hs 0) (h, c) = Some e ->
+  exists he ce, e = he ++ ce /\ content_enc (w_hs 0) c = Some ce /\ len ce <= 65535 /\
+    enc (c_header (length (h_cid h)))
+        (mk_hdr (content_type c) (h_maj h) (h_min h) (h_epoch h) (h_seq h) (h_cid h) (len ce)) = Some he.
+Proof. exact (record_marshal_declares_length (w_hs 0) h c e). Qed.
+
+Theorem record12_marshal_wrap_as_coded_refuted :
+  exists e, record_marshal_gen (w_hs 0) true (rec_wrap_witness (H := hs)) = Some e /\
+            firstn 2 (skipn 11 e) = [0; 10] /\ len e = 13 + 65546 /\
+            unpack_datagram e = None /\ record_marshal (w_hs 0) rec_wrap_witness = None.
+Proof. exact (record_marshal_wrap_as_coded_refuted (w_hs 0)). Qed.
+
+Theorem record12_oversize_not_reencoded :
+  exists b h d, bytes_ok b = true /\ record_unmarshal (w_hs 0) 0 b = Some (h, CAppData d) /\ len d = 65536 /\
+                record_marshal (w_hs 0) (h, CAppData d) = None.
+Proof. exact (record_oversize_not_reencoded (w_hs 0)). Qed.
 
 Theorem record12_declared_length_refuted :
   exists b h d, record_unmarshal (w_hs 0) 0 b = Some (h, CAppData d) /\ h_len h = 0 /\ d = [1; 2; 3].
